@@ -14,7 +14,7 @@ func c01Insts(plens []int64, nameLens []int64) []Inst {
 func init() {
 	reg(&Spec{
 		ID:      "C01",
-		Pkgs:    []string{"gateway"},
+		Pkgs:    []string{"gateway", "util"},
 		Quick:   func() []Inst { return c01Insts(cat(rng(0, 3), []int64{8, 248, 249, 250, 251, 7168}), []int64{1, 3}) },
 		Thor:    func() []Inst { return c01Insts(cat(rng(0, 64), rng(245, 258), []int64{1024, 7168}), []int64{0, 1, 2, 3, 4}) },
 		Asserts: []string{"C01.unknown_not_forwarded", "C01.exactly_one", "C01.is_publish", "C01.payload", "C01.flags", "C01.qos", "C01.msgid", "C01.topic", "C01.registry_intact"},
@@ -140,7 +140,7 @@ var gwOutside = []string{"histories longer than the bound that are not covered b
 
 func init() {
 	reg(&Spec{
-		ID: "C14", Pkgs: []string{"gateway"},
+		ID: "C14", Pkgs: []string{"gateway", "util"},
 		Quick: func() []Inst { return gwInsts("quick") }, Thor: func() []Inst { return gwInsts("thorough") },
 		Asserts:      []string{"C14.only_plain_disconnect"},
 		Reach:        []string{"C14.disconnect_sent"},
@@ -148,18 +148,53 @@ func init() {
 		FrameCallees: []string{"(*github.com/energomonitor/bisquitt/gateway.handler1).mqttSend"},
 	})
 	reg(&Spec{
-		ID: "C24", Pkgs: []string{"gateway"},
+		ID: "C24", Pkgs: []string{"gateway", "util"},
 		Quick: func() []Inst { return gwInsts("quick") }, Thor: func() []Inst { return gwInsts("thorough") },
 		Asserts:      []string{"C24.valid_packet", "C24.connect_protocol", "C24.will_flag_iff_topic", "C24.publish_topic_nonempty", "C24.publish_topic_no_wildcard", "C24.filter_nonempty", "C24.subscribe_qos", "C24.registry_names_valid"},
 		Bounds:       gwBounds, Outside: gwOutside,
 		FrameCallees: []string{"(*github.com/energomonitor/bisquitt/gateway.handler1).mqttSend"},
 	})
 	reg(&Spec{
-		ID: "C07", Pkgs: []string{"gateway"},
+		ID: "C07", Pkgs: []string{"gateway", "util"},
 		Quick: func() []Inst { return gwInsts("quick") }, Thor: func() []Inst { return gwInsts("thorough") },
 		Asserts:      []string{"C07.init", "C07.inv", "C07.connack_only_after_accept", "C07.nothing_relayed_before_accept", "C07.illegal_closes_session"},
 		Reach:        []string{"C07.connected_state", "C07.connack_accepted", "C07.illegal_before_connect"},
 		Bounds:       gwBounds, Outside: gwOutside,
 		FrameCallees: []string{"(*github.com/energomonitor/bisquitt/gateway.handler1).setState", "(*github.com/energomonitor/bisquitt/util.ClientState).Set"},
+	})
+}
+
+func c03Insts(full bool) []Inst {
+	var out []Inst
+	lens := []int64{4, 5, 6}
+	if full {
+		lens = []int64{4, 5, 6, 7, 8}
+	}
+	for _, n := range lens {
+		out = append(out, inst("gateway", "VH_C03_subscribe", n, 2), inst("gateway", "VH_C03_unsubscribe", n, 2))
+		if full {
+			out = append(out, inst("gateway", "VH_C03_subscribe", n, 3), inst("gateway", "VH_C03_unsubscribe", n, 1))
+		}
+	}
+	for k := int64(0); k <= 6; k++ {
+		out = append(out, inst("gateway", "VH_C03_passthrough", k))
+	}
+	return out
+}
+
+func init() {
+	reg(&Spec{
+		ID: "C03", Pkgs: []string{"gateway", "util"},
+		Quick: func() []Inst { return c03Insts(false) }, Thor: func() []Inst { return c03Insts(true) },
+		Asserts: []string{"C03.sub_accepted", "C03.sub_one_to_one", "C03.sub_is_subscribe", "C03.sub_msgid", "C03.sub_filter", "C03.sub_qos", "C03.sub_registered",
+			"C03.suback_one_to_one", "C03.suback_is_suback", "C03.suback_msgid", "C03.suback_accepted_iff_granted", "C03.suback_granted_qos", "C03.suback_topicid",
+			"C03.unsub_one_to_one", "C03.unsub_is_unsubscribe", "C03.unsub_fields", "C03.pubrel_one_to_one", "C03.pubrel_fields", "C03.pingreq_one_to_one", "C03.pingreq_fields",
+			"C03.disconnect_one_to_one", "C03.disconnect_fields", "C03.ack_one_to_one", "C03.ack_fields", "C03.pingresp_one_to_one", "C03.pingresp_fields"},
+		Reach: []string{"C03.suback_granted", "C03.sub_unknown_predefined"},
+		Bounds: map[string]string{
+			"subscribe":   "SUBSCRIBE decoded from symbolic bytes (all topic-ID types, DUP, requested QoS 0..2, message ID; topic names of 1..3 bytes, thorough 1..5) followed by the broker SUBACK with return code in {0,1,2,0x80} (symbolic); registry 1 entry + predefined 1+1 entries with symbolic IDs/names; client active",
+			"passthrough": "UNSUBSCRIBE (all topic-ID types), PUBREL, PINGREQ, plain DISCONNECT from the client; PUBREC, PUBCOMP, UNSUBACK, PINGRESP from the broker; message IDs symbolic",
+		},
+		Outside: []string{"SUBSCRIBE with QoS 3 (refused, see C24)", "sleeping-client cases of PINGREQ/PINGRESP (C11, C12)"},
 	})
 }
